@@ -188,6 +188,26 @@ def _alt_mask(m):
     return None
 
 
+def _with_index_name(values, name, ds):
+    """The same value columns as pandas Series whose (equal) index carries `name`."""
+    import pandas as pd
+
+    def one(v):
+        if isinstance(v, pd.Series):
+            return pd.Series(v.to_numpy(), index=v.index.rename(name), name=v.name, copy=False)
+        if isinstance(v, np.ndarray) and v.ndim == 1:
+            ix = gen._index(ds)
+            ix = pd.RangeIndex(len(v), name=name) if ix is None else ix.rename(name)
+            return pd.Series(v, index=ix, copy=False)
+        return v
+
+    if isinstance(values, dict):
+        return {k: one(v) for k, v in values.items()}
+    if isinstance(values, list):
+        return [one(v) for v in values]
+    return one(values)
+
+
 def _refill_values(old, new) -> bool:
     import pandas as pd
 
@@ -246,6 +266,8 @@ def _step_call(gb, step, ds, lay, class_keys=None, client=None):
             client["refilled_values"] = True
     client[("vver",) + vkey] = vver
     values = client[vkey]
+    if op.get("index_name"):
+        values = _with_index_name(values, op["index_name"], ds)
     if "mask_ref" in op:
         import pandas as pd
 
@@ -319,7 +341,11 @@ def gen_scenario(scen: Choices, cls, cfg):
         import copy
 
         b_ = scen.begin()
-        first = {"kind": "op", "op": ops.gen_op(scen, "basic" if scen.draw(4) else "composite", ds)}
+        fam1 = scen.weighted([(5, "basic"), (2, "composite"), (3, "rowwise")])
+        first = {"kind": "op", "op": ops.gen_op(scen, fam1, ds)}
+        if "ibg" in first["op"] and scen.chance(1, 2):
+            first["op"]["ibg"] = True  # the group-sorted output layout (goes through more cached state)
+        first["op"]["index_name"] = scen.weighted([(3, None), (1, "row")])
         if "mask" in first["op"] and scen.chance(3, 4):
             j = scen.draw(len(mask_pool))
             allowed = ("bool",) if first["op"]["op"] in ("median", "quantile", "apply") else ("bool", "slice", "positions")
@@ -336,6 +362,9 @@ def gen_scenario(scen: Choices, cls, cfg):
             last = copy.deepcopy(first)
             if "mask_ref" in last["op"]:
                 use_pool_mask(last["op"], last["op"]["mask_ref"])
+            if scen.chance(1, 2):
+                # the same call on the same data, only the name of the values' index differs
+                last["op"]["index_name"] = "obs" if first["op"]["index_name"] else "row"
         else:
             last = {"kind": "op", "op": ops.gen_op(scen, "basic", ds)}
             if "mask_ref" in first["op"] and "mask" in last["op"]:
@@ -362,6 +391,9 @@ def gen_scenario(scen: Choices, cls, cfg):
             if scen.chance(1, 6):
                 values_version[0] ^= 1
             op_["values_version"] = values_version[0]
+            # the same data under another index *name* (labels equal): metadata of the inputs
+            # must show in the result of this call, not that of an earlier one
+            op_["index_name"] = scen.weighted([(4, None), (1, "row"), (1, "obs")])
         steps.append(step)
         scen.end(b_)
         if step["kind"] == "class_form" and len(steps) < max_steps and scen.chance(1, 2):
